@@ -214,12 +214,23 @@ Theorem C05_conforms_reads : forall a s P s', conforms a s P s' ->
   forall lvl, exists v, read_argument a s lvl = AOk v s' lvl /\ P v.
 Proof. exact conforms_reads. Qed.
 
+(* a string argument with brace groups or commands inside is bound to its source text (repaired by 7145f1b; before, the value
+   was the repr of a Python object): characters with their braces, a command as \name and one blank, nothing stripped *)
+Theorem C05_string_source : forall a k piece body rest src,
+  classify (a_type a) = TyStr -> delimited (a_spec a) piece body -> modelled body ->
+  forallb is_plain body = false -> braces_balanced O body = true -> source_of body = Some src ->
+  forall lvl, exists v, read_argument a (blanks k ++ piece ++ rest) lvl = AOk v rest lvl /\ v = VStr src.
+Proof.
+  intros a k piece body rest src H1 H2 H3 H4 H5 H6 lvl.
+  destruct (areads_str_source a k piece body rest src H1 H2 H3 H4 H5 H6 lvl) as (v & Hr & Hv). exists v. split; [exact Hr|symmetry; exact Hv].
+Qed.
+
 (* Macro.parse over any list of declared arguments -- untyped, optional (present / absent), modifiers, str/chr/char, cs, Tok,
    int/number/count, float/double, dimen/length, Number, Dimen, Glue, list, dict -- and any conforming call: every declared name
    is bound, in order, to a value that is the denotation of the tokens written in its position (integers exactly, decimals and
    dimensions as exact rationals, strings with blanks stripped, list items and dictionary pairs in order), exactly the call is
    consumed, the enable level is restored.
-   Excluded (see [conforms]): str/list/dict contents with groups or macros (known finding str-of-group and expansion not
+   Excluded (see [conforms]): list/dict contents with groups or macros, registers or active characters inside a string (expansion not
    modelled); int/float/dimen arguments that are not exactly one literal; a register directly after a Number argument (known finding: it multiplies the constant); `l` after fil/fill; subtypes of list/dict other than none/str; dict values that are empty or
    contain `=`; label/id/ref/idref/url (casts with side effects on the document); XTok, Args, any. *)
 Theorem C05_parse_binds_typed_partial : forall args s b s',
